@@ -48,7 +48,8 @@ KONS = {
 DECL = {"DB": "Base", "DS": "Sub", "DH": "Hand", "DU": "USub", "DD": "Dflt", "D0": "Hand0",
         "DBc": "Base", "DSk": "Sub",     # DBc: with a condition (v.k >= 1); DSk: predicate form with a field constraint
         "DHt": "Hand",                   # DHt: the(entity(let(Hand))): NoSolutionFound / the instance / MultipleSolutionFound
-        "DRh": "Hand"}                   # DRh: a rule whose HEAD (only) mentions a no-domain variable: Made(a=x, b=let(Hand))
+        "DRh": "Hand",
+        "DHa": "Hand"}                   # DHa: an(entity(v.k)) - only an ATTRIBUTE of the no-domain variable is selected                   # DRh: a rule whose HEAD (only) mentions a no-domain variable: Made(a=x, b=let(Hand))
 SYMB = ("YB", "YH", "YS")
 MAX_Q = 2
 
@@ -385,6 +386,7 @@ def run_case(hist, inst):
         evaluated = set()
         constructed_since_decl = {}
         rule_heads = set()
+        attr_selected = set()
         with symbolic_mode():
             the_probe = the(entity(let(W.Item, src)))
         for i, op in enumerate(hist):
@@ -441,6 +443,11 @@ def run_case(hist, inst):
                         v = let(cls)
                         with symbolic_mode():
                             q = the(entity(v))
+                    elif op == "DHa":
+                        v = let(cls)
+                        with symbolic_mode():
+                            q = an(entity(v.k))
+                        attr_selected.add(id(q))
                     elif op == "DRh":
                         v = let(cls)
                         xs = let(W.Item, src)
@@ -464,6 +471,17 @@ def run_case(hist, inst):
                     if constructed_since_decl.get(qi):
                         flags.add("constructed-between-declaration-and-evaluation" if qi not in evaluated
                                   else "constructed-after-first-evaluation")
+                    if id(q) in attr_selected:
+                        try:
+                            vals = sorted(q.evaluate())
+                        except Exception as e:
+                            return ("evaluate-raised", i, op, exc_obs(e), "a list"), trans, flags
+                        expv = sorted(o.k for o in log if isinstance(o, cls))
+                        evaluated.add(qi)
+                        if vals != expv:
+                            when = "reevaluation" if hist[:i].count(op) > 0 else "first-evaluation"
+                            return (f"selected-attribute:{when}", i, op, vals, expv), trans, flags
+                        continue
                     if id(q) in rule_heads:
                         # one Made(a=x, b=h) per Item x of the two-object domain and live Hand h
                         try:
